@@ -298,10 +298,10 @@ def rule_idorder(ctx, prop: str) -> RuleResult:
     res = RuleResult("IDORDER")
 
     def bad_key(kw_value: ast.AST) -> bool:
-        if isinstance(kw_value, ast.Name) and kw_value.id in ("id", "hash"):
+        if isinstance(kw_value, ast.Name) and kw_value.id in ("id", "hash", "repr"):
             return True
         for n in ast.walk(kw_value):
-            if isinstance(n, ast.Call) and isinstance(n.func, ast.Name) and n.func.id in ("id", "hash"):
+            if isinstance(n, ast.Call) and isinstance(n.func, ast.Name) and n.func.id in ("id", "hash", "repr"):
                 return True
         return False
 
@@ -396,4 +396,54 @@ def rule_reprleak(ctx, prop: str) -> RuleResult:
     res.instances = max(res.instances, 1)
     res.sample("fixture `f'{s!r} = 0;'` matched; output-producing modules have no unguarded repr/!r/_id")
     res.floor = 1
+    return res
+
+
+def rule_symorder(ctx, prop: str) -> RuleResult:
+    """The total order on Syms (used to sort terms of normalised index expressions) must
+    be (name, numeric id): it is then invariant under a uniform offset of the global
+    counter.  Comparing printed forms ("i_20" < "i_7") is not."""
+    from .. import pat
+
+    ix = ctx.ix
+    res = RuleResult("SYMORDER")
+    m = ix.module("src/exo/core/prelude.py")
+    c = m.cls("Sym")
+    lt = c.methods.get("__lt__")
+    if lt is None:
+        raise AnalysisError("anchor vanished: Sym.__lt__")
+    res.analysed.append(f"{m.rel}:Sym.__lt__")
+    res.instances += 1
+    res.nontrivial += 1
+    ps = lt.params()
+    ok = pat.has(f"return ({ps[0]}._nm, {ps[0]}._id) < ({ps[1]}._nm, {ps[1]}._id)", lt.node)
+    res.ob(ok)
+    res.sample(f"Sym.__lt__ orders by (name, numeric id): {ok}")
+    if not ok:
+        res.add(Finding("SYMORDER", m.rel, lt.lineno, "Sym.__lt__", "(name,id)", "Sym.__lt__ no longer compares (name, numeric id): an order through str/repr (\"i_20\" < \"i_7\") changes when the ids of two same-named symbols straddle a power of ten, i.e. it depends on how many symbols were created earlier"))
+    # no stringified id anywhere in ordering methods
+    for name in ("__lt__", "__le__", "__gt__", "__ge__"):
+        f = c.methods.get(name)
+        if f is None:
+            continue
+        res.instances += 1
+        bad = any(isinstance(n, ast.Call) and isinstance(n.func, ast.Name) and n.func.id in ("repr", "str") for n in f.body_nodes()) or any(isinstance(n, ast.JoinedStr) for n in f.body_nodes())
+        res.ob(not bad)
+        if bad:
+            res.add(Finding("SYMORDER", m.rel, f.lineno, f"Sym.{name}", "stringified-order", f"Sym.{name} orders through a printed form of the symbol"))
+    # identity: equality on (name, id), hashing independent of the name text
+    eq = c.methods.get("__eq__")
+    res.instances += 1
+    ok = eq is not None and pat.has("return _M_a._nm == _M_b._nm and _M_a._id == _M_b._id", eq.node)
+    res.ob(ok)
+    if not ok:
+        res.add(Finding("SYMORDER", m.rel, (eq or lt).lineno, "Sym.__eq__", "eq(name,id)", "Sym equality must be (name, id)"))
+    # the counter only ever grows by one per new symbol
+    init = c.methods.get("__init__")
+    res.instances += 1
+    ok = init is not None and pat.has("Sym._unq_count += 1", init.node) and pat.has("self._id = Sym._unq_count", init.node)
+    res.ob(ok)
+    if not ok:
+        res.add(Finding("SYMORDER", m.rel, (init or lt).lineno, "Sym.__init__", "fresh-id", "every new Sym must take the next counter value"))
+    res.floor = 4
     return res
